@@ -9,8 +9,8 @@ from .. import gen, project
 from ..core import driver
 
 
-def _dtypes(cols, bits):
-    return {c: f"int{bits}" for c in cols}
+def _dtypes(cols, bits, unsigned=False):
+    return {c: f"{'u' if unsigned else ''}int{bits}" for c in cols}
 
 
 def _mk_inputs(case, d):
@@ -22,7 +22,7 @@ def _mk_inputs(case, d):
         p = os.path.join(d, f"in{k}.cool")
         bits = case["bits_in"][k] if "bits_in" in case else case["bits"]
         cooler.create_cooler(p, bins, gen.pixels_frame(px, cols, {c: np.int64 for c in cols}),
-                             columns=cols if cols != ["count"] else None, dtypes=_dtypes(cols, bits),
+                             columns=cols if cols != ["count"] else None, dtypes=_dtypes(cols, bits, case.get("unsigned", False)),
                              ordered=True, symmetric_upper=case["mode"] == "symm")
         uris.append(p)
     return uris
@@ -103,6 +103,15 @@ def mg_unordered(case, ctx):
     bins = gen.bins_frame(case["table"])
     cols = case["cols"]
     frames = [gen.pixels_frame(px, cols, {c: np.int64 for c in cols}) for px in case["chunks"]]
+    scale = case.get("scale", 1)
+    extra = {}
+    if scale != 1:                              # float64 value columns holding exact multiples of 1/scale
+        for f in frames:
+            for c in cols:
+                f[c] = f[c].astype(np.float64) / scale
+        extra["dtypes"] = {c: np.float64 for c in cols}
+    if case.get("dupcheck") is False:
+        extra["dupcheck"] = False
     if case["form"] == "dict":
         frames = [{k: v.values for k, v in f.items()} for f in frames]
     out = os.path.join(d, "out.cool")
@@ -119,12 +128,25 @@ def mg_unordered(case, ctx):
     try:
         cooler.create_cooler(uri, bins, iter(frames), columns=cols if cols != ["count"] else None,
                              ordered=False, symmetric_upper=case["mode"] == "symm", mergebuf=case["buf"],
-                             max_merge=case["max_merge"], temp_dir=tmpd, ensure_sorted=case.get("ensure_sorted", False))
+                             max_merge=case["max_merge"], temp_dir=tmpd, ensure_sorted=case.get("ensure_sorted", False), **extra)
         err = ""
     except Exception as ex:
         return {"err": f"{type(ex).__name__}: {str(ex)[:100]}"}
     finally:
         cc.tempfile.NamedTemporaryFile = real_ntf
     c = cooler.Cooler(uri)
-    return {"err": err, "px": project.pixel_rows(c.pixels()[:], ["bin1_id", "bin2_id", *cols]),
+    px = project.pixel_rows(c.pixels()[:], ["bin1_id", "bin2_id", *cols], scale)
+    if scale != 1:
+        import h5py
+        from cooler.util import parse_cooler_uri
+        fp, gp = parse_cooler_uri(uri)
+        with h5py.File(fp, "r+") as f:          # scale the stored columns so that the raw projection is integral
+            g = f[gp]
+            for name in cols:
+                vals = g["pixels"][name][:].astype(np.float64) * scale
+                del g["pixels"][name]
+                g["pixels"].create_dataset(name, data=np.round(vals).astype(np.int64))
+            if "sum" in g.attrs:
+                g.attrs["sum"] = int(round(float(g.attrs["sum"]) * scale))
+    return {"err": err, "px": px,
             "raw": project.raw_uri(uri), "temp_after": sorted(os.listdir(tmpd)), "two_pass": len(made) > 1}
